@@ -22,7 +22,10 @@ pub fn def() -> PropertyDef {
                registration of sink nodes, 3 insertion orders x 3 drain protocols (whole frontier / one group / one member at a time), plus \
                obliviate and keep_only against set-theoretic definitions; random: seeded random digraphs on 5..12 nodes; blocks: one \
                begin/that block per digraph on <=3 (quick) / <=4 (thorough) nodes in three flavours (sealed data types, value definitions, \
-               parameter on the cycle); perms: all permutations of generated blocks with <=5 contributions. A case is distinct by (graph code, \
+               parameter on the cycle); perms: all permutations of generated blocks with <=5 contributions; paramblocks: blocks with 2..4 parameters whose \
+               annotations go through alias chains defined in the same block, the definitions placed before / after / between the \
+               parameters (parameters keep their relative order): acceptance and the argument-to-parameter mapping printed by the block \
+               must not depend on the placement. A case is distinct by (graph code, \
                variant) or by program text hash and non-trivial when the graph has >=1 edge / the block has >=2 dependent contributions.",
         assumptions: &[
             "SCCs by Floyd-Warshall transitive closure are the reference",
